@@ -537,6 +537,21 @@ fn jitter_fault_case(sub: &str, id: u64, r: &mut Report) {
     let mut faults = 0;
     for _ in 0..p.range(6, 20) {
         let op = gen_out_op(&mut p, 0, 8);
+        // now and then the generator is replaced by `fresh.clone_from(&self)`, where
+        // `fresh` (same timer) itself holds a pending half: the stream continues with
+        // the next whole word (a clone holds no pending half)
+        if p.chance(1, 8) {
+            let mut dst = rand_jitter::JitterRng::new_with_timer(t_real.closure());
+            dst.set_rounds(rounds);
+            let _ = dst.next_u32(); // consumes readings of the shared script
+            t_twin.set_pos(t_real.calls()); // the twin skips exactly those readings
+            dst.clone_from(&real);
+            real = dst;
+            proj.pending = None;
+            words.truncate(proj.pos);
+            log.push("clone_from_into_pending".into());
+            r.cov("jitter_clone_from_splice");
+        }
         if p.chance(1, 4) && !matches!(op, Op::Fill(0)) {
             let at = p.below(3 * (1 + rounds as u64)) as usize;
             log.push(format!("{}!fault@+{}", op.show(), at));
@@ -659,6 +674,7 @@ pub fn run(ctx: &Ctx, only: Option<&Only>) -> Report {
     total.merge(drive(ctx, "jitter", ctx.n(1_500, 1_500), secs * 0.15, |id, r| case("jitter", id, r)));
     total.merge(drive(ctx, "jitter_fault", ctx.n(1_500, 1_500), secs * 0.05, |id, r| case("jitter_fault", id, r)));
     total.floor("jitter_faults_recovered", 300);
+    total.floor("jitter_clone_from_splice", 300);
     for name in TYPE_NAMES.iter().chain(["JitterRng"].iter()) {
         total.floor(&format!("type:{}", name), 20);
         total.floor(&format!("boundary:{}", name), 700);
